@@ -207,6 +207,22 @@ static inline ApiObs api_execute(const ApiCase &a, int fill) {
       } else
         o.returned_null = true;
       free(ob);
+      // exact-fit probing: the same request into heap blocks of exactly strlen(result) + 1, + 0 and + 2 bytes
+      // (the sizes at which a size check that is off by one starts to write outside the block)
+      if (r && osz > 0 && o.ptr_ok && o.problem.empty()) {
+        size_t L = o.ret.size();
+        for (size_t sz : {L + 1, L, L + 2}) {
+          if (sz == 0 || (long long)sz == osz) continue;
+          char *eb = (char *)malloc(sz);
+          memset(eb, 0x7e, sz);
+          int saved = errno;
+          char *er = crypt_gensalt_rn(prefix, a.count, rb, nrb, eb, (int)sz);
+          if (er && strnlen(eb, sz) == sz) o.problem = "crypt_gensalt_rn succeeded with output_size=" + std::to_string(sz) + " but left the buffer unterminated";
+          if (er && er != eb) o.problem = "crypt_gensalt_rn returned a pointer outside the caller's buffer";
+          errno = saved;
+          free(eb);
+        }
+      }
     } else if (a.entry == E_GENSALT) {
       char *r = crypt_gensalt(prefix, a.count, rb, nrb);
       o.err = errno;
